@@ -182,6 +182,7 @@ Rename(S, od, on, ok_, nd, nn, nk, fl) ==
                   i3 == IF IsDir(S, s) THEN [i2 EXCEPT ![s].par = nd] ELSE i2
                   i4 == IF IsDir(S, t) THEN [i3 EXCEPT ![t].par = od] ELSE i3
               IN Succ([S EXCEPT !.dent = d2, !.ino = i4], NoRet)
+    ELSE IF has /\ IsDir(S, t) /\ (od = t \/ Under(S, t, od, MaxDepth)) THEN Fail(S, {"ENOTEMPTY", "EEXIST"})   \* target is an ancestor of the source
     ELSE IF has /\ IsDir(S, s) /\ ~IsDir(S, t) THEN Fail(S, {"ENOTDIR"})
     ELSE IF has /\ ~IsDir(S, s) /\ IsDir(S, t) THEN Fail(S, {"EISDIR"})
     ELSE IF has /\ IsDir(S, t) /\ Names(S, t) # {} THEN Fail(S, {"ENOTEMPTY", "EEXIST"})
